@@ -41,7 +41,7 @@ class Lines(object):
         return cur
 
 
-def gen_namespace(rng, nsname, thorough, deps, want_blocks=True, main=True):
+def gen_namespace(rng, nsname, thorough, deps, want_blocks=True, main=True, gobject=False):
     """deps: list of already generated dependency jobs whose types may be referenced."""
     P = nsname                                   # identifier prefix
     p = nsname.lower()                           # symbol prefix
@@ -250,10 +250,131 @@ def gen_namespace(rng, nsname, thorough, deps, want_blocks=True, main=True):
         block(['SECTION:%s' % sec, '@short_description: about %s' % sec, '@title: %s things' % sec.title(), '',
                'Long description of the %s section.' % sec], rng.choice(apis))
 
+    # ---- GObject types described by the runtime dump (classes, interfaces, boxed, enums, error domains)
+    dump, quarks = {}, {}
+    if gobject:
+        order_before.append([f_typedefs, f_structs])       # class structs name the typedefs in their vfuncs
+        GOBJ, GOBJCLASS, GTYPE = ['named', 'GObject'], ['named', 'GObjectClass'], ['named', 'GType']
+
+        def get_type_fn(snake_name):
+            fn = '%s_%s_get_type' % (p, snake_name)
+            D({'k': 'function', 'name': fn, 'ret': GTYPE, 'params': []}, rng.choice(apis))
+            return fn
+
+        classes = rng.sample(['Thing', 'Gadget', 'Engine'], rng.randint(1, 2))
+        ifaces = rng.sample(['Doable', 'Plugin'], rng.randint(0, 2))
+        for ifc in ifaces:
+            si = snake(ifc)
+            D({'k': 'typedef_struct_fwd', 'name': P + ifc, 'tag': '_' + P + ifc}, f_typedefs)
+            D({'k': 'typedef_struct_fwd', 'name': P + ifc + 'Interface', 'tag': '_' + P + ifc + 'Interface'}, f_typedefs)
+            vfs = rng.sample(['do_it', 'undo_it', 'query'], rng.randint(1, 3))
+            members = [{'name': 'g_iface', 'type': ['named', 'GTypeInterface']}]
+            for vf in vfs:
+                members.append({'name': vf, 'type': ['ptr', ['func', ['void'], [['self', ['ptr', ['named', P + ifc]]]]]]})
+                if rng.random() < 0.8:
+                    D({'k': 'function', 'name': '%s_%s_%s' % (p, si, vf), 'ret': ['void'],
+                       'params': [['self', ['ptr', ['named', P + ifc]]]]}, rng.choice(apis))
+            D({'k': 'struct_def', 'tag': '_' + P + ifc + 'Interface', 'members': members}, f_structs, len(members) + 1)
+            fn = get_type_fn(si)
+            props = ''.join('<property name="%s" type="gint" flags="%d"/>' % (n, fl)
+                            for n, fl in rng.sample([('zeta', 3), ('alpha', 1), ('mid-prop', 7)], rng.randint(0, 3)))
+            sigs = ''.join('<signal name="%s" return="void" when="last"><param type="%s%s"/></signal>' % (n, P, ifc)
+                           for n in rng.sample(['went', 'arrived'], rng.randint(0, 2)))
+            dump[fn] = '<interface name="%s%s" get-type="%s">%s%s<prerequisite name="GObject"/></interface>' % (P, ifc, fn, props, sigs)
+            if want_blocks and rng.random() < 0.5:
+                block(['%s%s:' % (P, ifc), '', 'An interface.'], f_typedefs)
+        prev = None
+        for cl in classes:
+            sc = snake(cl)
+            D({'k': 'typedef_struct_fwd', 'name': P + cl, 'tag': '_' + P + cl}, f_typedefs)
+            D({'k': 'typedef_struct_fwd', 'name': P + cl + 'Class', 'tag': '_' + P + cl + 'Class'}, f_typedefs)
+            parent_inst = ['named', P + prev] if prev else GOBJ
+            parent_cls = ['named', P + prev + 'Class'] if prev else GOBJCLASS
+            D({'k': 'struct_def', 'tag': '_' + P + cl, 'members': [
+                {'name': 'parent_instance', 'type': parent_inst},
+                {'name': 'priv_%s' % sc, 'type': GPOINTER, 'private': rng.random() < 0.7}]}, f_structs, 3)
+            vfs = rng.sample(['frob', 'changed', 'render', 'validate'], rng.randint(0, 3))
+            members = [{'name': 'parent_class', 'type': parent_cls}]
+            for vf in vfs:
+                members.append({'name': vf, 'type': ['ptr', ['func', rng.choice([['void'], ['named', 'gboolean']]),
+                                                       [['self', ['ptr', ['named', P + cl]]], ['value', ['basic', 'int']]]]]})
+                if rng.random() < 0.7:      # the invoker method
+                    D({'k': 'function', 'name': '%s_%s_%s' % (p, sc, vf), 'ret': ['void'],
+                       'params': [['self', ['ptr', ['named', P + cl]]], ['value', ['basic', 'int']]]}, rng.choice(apis))
+            members.append({'name': 'padding', 'type': ['array', GPOINTER, 4]})
+            D({'k': 'struct_def', 'tag': '_' + P + cl + 'Class', 'members': members}, f_structs, len(members) + 1)
+            fn = get_type_fn(sc)
+            for cname in rng.sample(['new', 'new_with_size', 'new_from_name', 'new_full'], rng.randint(1, 3)):
+                params = {'new': [], 'new_with_size': [['size', ['basic', 'int']]], 'new_from_name': [['name', STRING_IN]],
+                          'new_full': [['size', ['basic', 'int']], ['name', STRING_IN]]}[cname]
+                ctor = D({'k': 'function', 'name': '%s_%s_%s' % (p, sc, cname), 'ret': ['ptr', ['named', P + cl]],
+                          'params': params}, rng.choice(apis))
+                if want_blocks and rng.random() < 0.5:
+                    block(['%s:' % ctor['name']] + ['@%s: the %s' % (n, n) for n, _ in params] +
+                          ['', 'Creates a %s.' % cl, '', 'Returns: (transfer full): a new #%s%s' % (P, cl)], ctor['file'])
+            plist = rng.sample([('size', 'gint', 3, '0'), ('name', 'gchararray', 7, 'NULL'), ('active', 'gboolean', 1, 'FALSE'),
+                                ('zoom-level', 'gdouble', 11, '1.000000'), ('owner', 'GObject', 3, None)], rng.randint(0, 4))
+            props = ''
+            for (n, t, fl, dv) in plist:
+                props += '<property name="%s" type="%s" flags="%d"%s/>' % (n, t, fl, (' default-value="%s"' % dv) if dv else '')
+                un = n.replace('-', '_')
+                if t in ('gint', 'gboolean') and rng.random() < 0.6:
+                    ct = ['basic', 'int'] if t == 'gint' else ['named', 'gboolean']
+                    D({'k': 'function', 'name': '%s_%s_get_%s' % (p, sc, un), 'ret': ct,
+                       'params': [['self', ['ptr', ['named', P + cl]]]]}, rng.choice(apis))
+                    if fl & 2:
+                        D({'k': 'function', 'name': '%s_%s_set_%s' % (p, sc, un), 'ret': ['void'],
+                           'params': [['self', ['ptr', ['named', P + cl]]], [un, ct]]}, rng.choice(apis))
+                if want_blocks and rng.random() < 0.4:
+                    block(['%s%s:%s:' % (P, cl, n), '', 'The %s property.' % n] + (['', 'Since: 1.2'] if rng.random() < 0.3 else []), f_typedefs)
+            slist = rng.sample(['changed', 'activated', 'about-to-finish', 'zapped'], rng.randint(0, 3))
+            sigs = ''
+            for sn in slist:
+                extra = rng.choice(['', '<param type="gint"/>', '<param type="gchararray"/><param type="GObject"/>'])
+                sigs += '<signal name="%s" return="%s" when="%s"%s><param type="%s%s"/>%s</signal>' % (
+                    sn, rng.choice(['void', 'gboolean']), rng.choice(['first', 'last', 'cleanup']),
+                    rng.choice(['', ' detailed="1"', ' action="1"', ' no-recurse="1"']), P, cl, extra)
+                if want_blocks and rng.random() < 0.4:
+                    tl = ['%s%s::%s:' % (P, cl, sn), '@object: the emitter']
+                    if 'gint' in extra:
+                        tl.append('@p0: a number')
+                    block(tl + ['', 'Emitted sometimes.'], f_typedefs)
+            impl = ''.join('<implements name="%s%s"/>' % (P, i) for i in sorted(ifaces, reverse=True) if rng.random() < 0.7)
+            parents = (P + prev + ',GObject') if prev else 'GObject'
+            dump[fn] = '<class name="%s%s" get-type="%s" parents="%s"%s>%s%s%s</class>' % (
+                P, cl, fn, parents, ' abstract="1"' if rng.random() < 0.2 else '', impl, props, sigs)
+            if want_blocks and rng.random() < 0.6:
+                block(['%s%s:' % (P, cl), '', 'A %s object.' % cl.lower()], f_typedefs)
+            if rng.random() < 0.5:
+                en = cl + 'Error'
+                base = '%s_%s_ERROR' % (p.upper(), sc.upper())
+                D({'k': 'typedef_enum', 'name': P + en, 'members': [[base + '_FAILED', 0], [base + '_BUSY', 1]], 'flags': False}, f_types, 3)
+                qfn = '%s_%s_error_quark' % (p, sc)
+                D({'k': 'function', 'name': qfn, 'ret': ['named', 'GQuark'], 'params': []}, rng.choice(apis))
+                quarks[qfn] = '<error-quark function="%s" domain="%s-%s-error-quark"/>' % (qfn, p, sc.replace('_', '-'))
+            prev = cl
+        # some plain records become boxed types, some enums get a GType
+        for r in records:
+            d = [x for x in decls if x.get('name') == P + r and x['k'] in ('typedef_struct_fwd', 'typedef_struct')]
+            if d and not d[0].get('union') and rng.random() < 0.6:
+                fn = get_type_fn(snake(r))
+                dump[fn] = '<boxed name="%s%s" get-type="%s"/>' % (P, r, fn)
+        for d in [x for x in decls if x['k'] == 'typedef_enum' and not x['name'].endswith('Error')]:
+            if rng.random() < 0.6:
+                fn = get_type_fn(snake(d['name'][len(P):]))
+                mem = ''.join('<member name="%s" nick="%s" value="%d"/>' % (i, i.split('_')[-1].lower(), v) for i, v in d['members'])
+                dump[fn] = '<%s name="%s" get-type="%s">%s</%s>' % ('flags' if d['flags'] else 'enum', d['name'], fn, mem,
+                                                                    'flags' if d['flags'] else 'enum')
+
     job = {'ns': nsname, 'version': '1.0', 'id_prefixes': [P], 'sym_prefixes': [p],
            'includes': ['%s-%s' % (d['ns'], d['version']) for d in deps],
            'options': [], 'file_order': files, 'order_before': order_before, 'decls': decls,
            'comments': comments, 'deps': deps, '_records': records}
+    if gobject:
+        job['includes'] = ['GObject-2.0'] + job['includes']
+        job['dump'] = dump
+        job['error_quarks'] = quarks
+        job['program'] = 'bin/dumper'
     opt = job['options']
     if rng.random() < 0.6:
         opt.append('--warn-all')
@@ -289,8 +410,10 @@ def gen_job(rng, thorough):
         b = gen_namespace(rng, 'Dpb', False, [a], want_blocks=False, main=False)
         c = gen_namespace(rng, 'Dpc', False, [a], want_blocks=False, main=False)
         deps = [c, b, a]
-    main = gen_namespace(rng, rng.choice(['Vfa', 'Qx', 'Mylib']), thorough, deps)
+    gobject = rng.random() < 0.45
+    main = gen_namespace(rng, rng.choice(['Vfa', 'Qx', 'Mylib']), thorough, deps, gobject=gobject)
     main['shape'] = shape
+    main['gobject'] = gobject
     return main
 
 
